@@ -68,11 +68,11 @@ package hmac
 //@ func (*hmac).Sum
 //@   safety C18
 //@   props C18 C04
-//@   requires HmacOK(h) && region(in) != region(h.opad) && region(in) != region(h.ipad)
-//@   assigns in[len(in):min(cap(in), len(in) + 64)], gmap(hstate)[errval(h.outer)]
+//@   requires HmacOK(h) && (region(in) != region(h.opad) && region(in) != region(h.ipad) || region(in) == 0)
+//@   assigns in[len(in):min(cap(in), len(in) + HSize(h.outer))], gmap(hstate)[errval(h.outer)]
 //@   allocates
 //@   ensures len(result) == len(in) + HSize(h.outer)
-//@   ensures (region(result) == region(in) && off(result) == off(in)) || fresh(result)
+//@   ensures (region(result) == region(in) && off(result) == off(in) && len(in) + HSize(h.outer) <= cap(in)) || fresh(result)
 //@   ensures forall(i, 0, len(in), result[i] == old(in[i]))
 //@   ensures forall(i, 0, HSize(h.outer), result[len(in) + i] == digbyte(HKind(h.outer), old(seqapp(OuterStart(h), digarr(HKind(h.inner), HState(h.inner))[0:HSize(h.inner)])), i))
 
@@ -97,7 +97,7 @@ package hmac
 //@   requires h != nil && h.inner != nil && h.outer != nil && errval(h.inner) != errval(h.outer)
 //@   requires HKind(h.inner) == HKind(h.outer) && HSize(h.inner) == HSize(h.outer) && HBlock(h.inner) == HBlock(h.outer)
 //@   requires 0 < HSize(h.inner) && HSize(h.inner) <= HBlock(h.inner) && HBlock(h.inner) <= 64
-//@   requires (region(h.ipad) != region(h.opad) || region(h.ipad) == 0) && region(key) != region(h.ipad) && region(key) != region(h.opad)
+//@   requires (region(h.ipad) != region(h.opad) || region(h.ipad) == 0) && (region(key) != region(h.ipad) && region(key) != region(h.opad) || region(key) == 0)
 //@   assigns h.ipad, h.opad, h.marshaled, mem(h.ipad), mem(h.opad), gmap(hstate)[errval(h.inner)], gmap(hstate)[errval(h.outer)]
 //@   allocates
 //@   ensures HmacOK(h) && !h.marshaled && len(h.ipad) == HBlock(h.inner) && len(h.opad) == HBlock(h.inner)
@@ -127,3 +127,61 @@ package hmac
 //@     invariant forall(j, rangeindex + 1, len(h.opad), h.opad[j] == loopold(h.opad[j]))
 //@     invariant region(h.ipad) != region(h.opad) && forall(j, 0, len(h.ipad), h.ipad[j] == loopold(h.ipad[j]))
 //@     decreases len(h.opad) - rangeindex
+
+//@ func assertHMACSize
+//@   safety C18 C04
+//@   props C18 C04
+//@   pure
+//@   requires h != nil && h.inner != nil && h.outer != nil && HSize(h.outer) == size && HBlock(h.inner) == blocksize
+
+// What the pools hand out (assumption, justified by sync.Pool's ownership contract and by the two ways objects
+// enter a pool: the pool's New function - New(sha1.New, ...) - and PutSHA1/PutSHA256, which check the sizes):
+// an *hmac nobody else references (modelled as freshly allocated, with arbitrary contents: any key, pad length,
+// marshaled flag and hash state the object had in its previous life), whose two hashes are distinct hashes of the pool's kind.
+//@ define PoolObj(h, kind, size, block) = h != nil && fresh(h) && h.inner != nil && h.outer != nil && errval(h.inner) != errval(h.outer)
+//@   | && HKind(h.inner) == kind && HKind(h.outer) == kind && HSize(h.inner) == size && HSize(h.outer) == size && HBlock(h.inner) == block && HBlock(h.outer) == block
+//@   | && (fresh(h.ipad) || region(h.ipad) == 0) && (fresh(h.opad) || region(h.opad) == 0) && (region(h.ipad) != region(h.opad) || region(h.ipad) == 0)
+//@ func AcquireSHA1->(*sync.Pool).Get(p)
+//@   pure
+//@   allocates
+//@   resulttype *hmac
+//@   ensures PoolObj(result, 1, 20, 64)
+//@ func AcquireSHA256->(*sync.Pool).Get(p)
+//@   pure
+//@   allocates
+//@   resulttype *hmac
+//@   ensures PoolObj(result, 2, 32, 64)
+
+// Ready(h, kind, key, B, hsz): keyed with key per RFC 2104 and nothing written yet
+//@ define Ready(h, kind, key, B, hsz) = HmacOK(h) && HKind(h.inner) == kind && HBlock(h.inner) == B && HSize(h.inner) == hsz
+//@   | && Keyed(h, kind, key, B, hsz) && HState(h.inner) == InnerStart(h)
+//@   | && (h.marshaled || len(h.ipad) == B && len(h.opad) == B)
+
+//@ func AcquireSHA1
+//@   safety C18 C04
+//@   props C18 C04
+//@   assigns gmap(hstate)
+//@   allocates
+//@   resulttype *hmac
+//@   ensures fresh(result) && Ready(result, 1, old(key), 64, 20) && (fresh(result.ipad) || region(result.ipad) == 0) && (fresh(result.opad) || region(result.opad) == 0)
+
+//@ func AcquireSHA256
+//@   safety C18
+//@   props C18
+//@   assigns gmap(hstate)
+//@   allocates
+//@   resulttype *hmac
+//@   ensures fresh(result) && Ready(result, 2, old(key), 64, 32) && (fresh(result.ipad) || region(result.ipad) == 0) && (fresh(result.opad) || region(result.opad) == 0)
+
+//@ func PutSHA1
+//@   safety C18 C04
+//@   props C18 C04
+//@   pure
+//@   requires errtag(h) == typeid("*github.com/pion/stun/v3/internal/hmac.hmac") && PutOK(h, 20, 64)
+//@ func PutSHA256
+//@   safety C18
+//@   props C18
+//@   pure
+//@   requires errtag(h) == typeid("*github.com/pion/stun/v3/internal/hmac.hmac") && PutOK(h, 32, 64)
+//@ define PutOK(h, size, block) = errval(h) != 0 && asptr(h, "*hmac").inner != nil && asptr(h, "*hmac").outer != nil
+//@   | && HSize(asptr(h, "*hmac").outer) == size && HBlock(asptr(h, "*hmac").inner) == block
